@@ -9,12 +9,25 @@ Two monitors, both on two real nfc.llcp.llc.LogicalLinkController objects joined
    accepting end may act before the CC has left, 2 = additionally the thread inside connect() runs again only at an
    explicit step J (it "was not scheduled" for some link turns). connect()/close() block by design: their waits
    turn the link (PumpCond) or, in the early set-ups, sit in a helper thread whose progress the history controls.
-2. thread stress: both real run() loops, one blocking sender and one blocking receiver thread per end,
-   yield injection through sys.monitoring LINE events in nfc/llcp/tco.py and llc.py.
+2. thread stress: both real run() loops, blocking sender and receiver threads on the connection's two sockets,
+   yield injection through sys.monitoring LINE events in nfc/llcp/tco.py and llc.py.  Half of the runs have one
+   sender and one receiver thread per end; in the others 2-4 sender threads (and 1-2 receiver threads) share the
+   socket of an end and the peer announces RW 1..3, so that the senders queue up on the window and every
+   acknowledgement is contended (a woken sender is additionally delayed at random before it re-acquires the lock).
+3. forced schedules (Gated): the same contention made deterministic on a lock-step pair: the window is full, 1-3
+   threads sit in blocking send() calls, the acknowledgement(s) arrive, the woken threads are held back before they
+   re-acquire the connection's lock (GateCond, a delegating stand-in for the connection's Condition installed on the
+   harness side) while further send() calls (blocking threads or MSG_DONTWAIT) take the freed slots, then the
+   woken threads run; the receiver is prompt or calls recv() only when the link went quiet.  Same for two threads
+   in recv() and a message that a third recv() takes first (observation: recv() then returns None on an open
+   connection - not judged, no message is lost).
 
 Oracles (identical in both):
   deliver/*   per direction the messages returned by recv() are a prefix of the messages accepted by send(),
-              exactly once and in order; equal at quiescence unless close() was called on the connection
+              exactly once and in order; equal at quiescence unless close() was called on the connection.  With
+              several threads on a socket "in order" is what the harness can know: m1 before m2 whenever send(m1)
+              had returned before send(m2) was called (always within one sender thread), judged per receiver
+              thread; no duplicates; multiset equality at quiescence (judge_delivery)
   window/*    vf.ref.window_model over the wire PDUs as decoded by vf.ref.llcp_ref (RW/MIU from CONNECT/CC on the
               wire); a send refused with EWOULDBLOCK although fewer than RW(peer) of the accepted messages are
               unacknowledged on the wire
@@ -27,6 +40,7 @@ The first violation of a history ends it (later symptoms are consequences of the
 """
 import errno
 import hashlib
+import itertools
 import json
 import random
 import sys
@@ -46,7 +60,10 @@ RULE = ("cases = (a) every history of length <= depth (quick 6, thorough 6 over 
         "(they commute), (b) random walks of 2000 (thorough 5000) steps with traffic profiles that change every "
         "~100 steps over random RW 0..15, connection MIU 128..2175, link MIU, aggregation, connecting end, 20% of "
         "them with application calls on the accepting end before the CC left / before connect() returned, "
-        "(c) threaded runs with blocking calls, 50-500 messages per direction, randomised yields; a case is distinct "
+        "(c) threaded runs with blocking calls, 50-500 messages per direction, randomised yields, half of them with "
+        "2-4 sender and 1-2 receiver threads per socket and RW 1..3 announced to the senders, (d) forced schedules "
+        "over RW 1..3 x 1-3 blocked senders x slots freed x number of RR PDUs x late-coming send() calls x N(S) "
+        "position x prompt/lazy receiver in which a woken sender is held before it re-acquires the lock; a case is distinct "
         "by (configuration, operation list) resp. (configuration incl. seeds) and non-trivial when at least one "
         "I PDU went through the window model and one recv() was compared with the accepted sends")
 ASSUMPTIONS = ["vf.ref.llcp_ref decodes I/RR/RNR/CONNECT/CC as LLCP 1.3 section 4 defines them",
@@ -55,12 +72,15 @@ ASSUMPTIONS = ["vf.ref.llcp_ref decodes I/RR/RNR/CONNECT/CC as LLCP 1.3 section 
                "link turns strictly alternate (initiator first) as NFC-DEP forces them to; the MAC below the LLC "
                "is loss free (C04 covers the MAC)",
                "thread schedules are sampled with random yields, not enumerated to a preemption bound",
+               "a thread that gives the connection's lock up again right after Condition.wait() returned (GateCond) is "
+               "indistinguishable from a notified thread that has not been scheduled yet",
                "after close() on either end only the prefix/exactly-once part of the delivery oracle applies",
                "lost wake-ups are recognised through CPython's threading.Condition waiter registration"]
 REQUIRED = ["pdu_I", "pdu_RR", "pdu_RNR", "ns_wraps", "window_full_events", "rnr_episodes", "histories_enumerated",
             "walks", "recv_compared", "quiescence_equal_checked", "emsgsize_checked", "threaded_runs_completed",
             "threaded_messages_delivered", "thread_switches", "pdu_len_contract", "acks_polls_true",
-            "acks_polls_true_after_wrap"]
+            "acks_polls_true_after_wrap", "multi_sender_runs_completed", "gated_scenarios_completed",
+            "gate_window_forced", "woken_window_full_again"]
 
 EX_CONFIGS = [  # bounded-exhaustive configurations: RW(A), RW(B), aggregation, early (accepting end acts before the CC left)
     {"rw": [1, 1], "agf": 0, "early": 0}, {"rw": [1, 1], "agf": 1, "early": 0},
@@ -93,7 +113,7 @@ def plan(tier, seed):
                 d.update(depth2=8, alphabet2=ALPHA_DEEP)
         out.append(d)
     for i in range(4):
-        d = {"kind": "threaded", "greet_run": 1}
+        d = {"kind": "threaded", "greet_run": 1, "multi_runs": [2, 3, 5], "gated": 40 if tier == "quick" else 400}
         if tier == "quick":
             d.update(runs=6, n_lo=50, n_hi=220, budget=25, timeout=600)
         else:
@@ -969,6 +989,130 @@ class YieldInjector:
             self.active = False
 
 
+GATE_GUARD = 20.0
+
+
+class GateCond:
+    """Harness-side delegating stand-in for ONE Condition attribute of ONE connection object (send_token: the wait
+    for a free send-window slot, recv_ready: the wait for a message).  Everything goes to the real Condition; on top:
+      * it counts, per call of the surrounding method (= per `with cond:` entry of a thread), how often the thread
+        waits: a second wait inside one call means the thread was woken and found its condition false again
+        (another thread was faster) - the situation in which a missing re-check breaks the protocol;
+      * hold: a thread that returns from an untimed wait() gives the lock up again at once (exactly the state of a
+        notified thread that has not been scheduled yet: Condition.wait() = release, sleep, re-acquire and other
+        threads may get the lock before the re-acquisition) and parks until the harness releases it;
+      * p_delay: the same, but only for a few yields (random schedule perturbation in the threaded runs).
+    Nothing here decides a verdict."""
+
+    def __init__(self, real, rng=None, p_delay=0.0):
+        self._real = real
+        self._rng, self._p = rng, p_delay
+        self.mu = threading.Lock()
+        self.calls = {}             # thread ident -> waits in the current call
+        self.waiting = set()        # idents inside the real wait()
+        self.parked = set()         # idents parked after a wake-up, lock released
+        self.hold = False
+        self.go = threading.Event()
+        self.wakeups = self.rewaits = self.delays = self.guard_hit = self.unavailable = 0
+
+    def __enter__(self):
+        r = self._real.__enter__()
+        self.calls[threading.get_ident()] = 0
+        return r
+
+    def __exit__(self, *a):
+        return self._real.__exit__(*a)
+
+    def _give_up_lock(self, pause):
+        try:
+            saved = self._real._release_save()
+        except Exception:
+            self.unavailable += 1
+            return
+        try:
+            pause()
+        finally:
+            self._real._acquire_restore(saved)
+
+    def wait(self, timeout=None):
+        me = threading.get_ident()
+        with self.mu:
+            n = self.calls.get(me, 0)
+            self.calls[me] = n + 1
+            self.rewaits += n > 0
+            self.waiting.add(me)
+        try:
+            r = self._real.wait(timeout)
+        finally:
+            with self.mu:
+                self.waiting.discard(me)
+                self.wakeups += 1
+        if timeout is not None:
+            return r
+        if self.hold:
+            def park():
+                with self.mu:
+                    self.parked.add(me)
+                if not self.go.wait(GATE_GUARD):
+                    self.guard_hit += 1
+                with self.mu:
+                    self.parked.discard(me)
+            self._give_up_lock(park)
+        elif self._p and self._rng.random() < self._p:
+            self.delays += 1
+            k = self._rng.choice((1, 1, 2, 4))
+            self._give_up_lock(lambda: [time.sleep(0) for _ in range(k)])
+        return r
+
+    def __getattr__(self, name):
+        return getattr(self._real, name)
+
+
+def judge_delivery(direction, sends, recvs, complete):
+    """Delivery oracle for one direction with any number of sender / receiver threads on the connection.
+    sends: {sender thread: [[msg, start stamp, end stamp or None (call not returned / not accepted)], ...]} in call order;
+    recvs: {receiver thread: [msg, ...]} in the order that thread's recv() calls returned.
+    exactly once: no message twice, nothing that was never handed to send(); in sending order: if send(m1) returned
+    before send(m2) was called (always so inside one sender thread) no receiver thread gets m2 before m1, and with
+    one receiver thread the messages of a sender thread arrive without gaps; complete (quiescence, nobody closed):
+    the delivered and the accepted messages are the same multiset.  Returns (clause, text) or None."""
+    info, owner = {}, {}
+    for t, recs in sends.items():
+        for k, (msg, s0, s1) in enumerate(recs):
+            info[msg] = (s0, s1 if s1 is not None else 1 << 62, t, k)
+    seen = {}
+    for rt, got in recvs.items():
+        hi, him = -1, None
+        for i, msg in enumerate(got):
+            if not isinstance(msg, (bytes, bytearray)):
+                return ("recv-returned-%s" % type(msg).__name__, "%s %s recv() #%d returned %r" % (direction, rt, i, msg))
+            msg = bytes(msg)
+            if msg in seen:
+                return ("duplicate", "%s message %r delivered twice (%s #%d and %s #%d)" % (
+                    direction, msg[:5], seen[msg][0], seen[msg][1], rt, i))
+            seen[msg] = (rt, i)
+            if msg not in info:
+                return ("never-accepted", "%s %s recv() #%d returned %d bytes no send() was given" % (direction, rt, i, len(msg)))
+            s0, s1, t, k = info[msg]
+            if s1 < hi:
+                return ("lost-or-reordered", "%s %s received message #%d of %s after message #%d of %s although its "
+                        "send() had returned before that one was called" % (direction, rt, k, t, info[him][3], info[him][2]))
+            if s0 > hi:
+                hi, him = s0, msg
+    if len(recvs) == 1 or complete:
+        for t, recs in sends.items():
+            flags = [rec[0] in seen for rec in recs]
+            if False in flags and True in flags[flags.index(False):]:
+                return ("lost-or-reordered", "%s message #%d of %s was not delivered but a later one of that thread was" % (
+                    direction, flags.index(False), t))
+    if complete:
+        acc = sum(1 for recs in sends.values() for rec in recs if rec[2] is not None)
+        lost = [(t, k) for t, recs in sends.items() for k, rec in enumerate(recs) if rec[2] is not None and rec[0] not in seen]
+        if lost or len(seen) != acc:
+            return ("lost-at-quiescence", "%s: accepted %d, delivered %d, first missing %r" % (direction, acc, len(seen), lost[:1]))
+    return None
+
+
 class WireWatch:
     """pipe observer: online window model + what the stall detector needs (frame numbers of events)"""
 
@@ -986,6 +1130,7 @@ class WireWatch:
         self.seq = 0                             # running number of leaf PDUs (order inside aggregated frames)
         self.first_seq = {}
         self.first_i_seq = {}
+        self.frame_of = {}                       # I PDU payload -> frame number (payloads carry unique ids)
 
     def __call__(self, direction, data, _pdu=None):
         x = direction[0]
@@ -1022,6 +1167,7 @@ class WireWatch:
             if t == "I":
                 self.i_frame[x].append(self.frame)
                 self.i_data[x].append(d["data"])
+                self.frame_of.setdefault(d["data"], self.frame)
                 st.mx("max_outstanding", m.outstanding(x))
             if m.acked[other(x)] != acked:
                 self.ack_frame[other(x)] = self.frame
@@ -1069,9 +1215,17 @@ def threaded_run(cfg, R, rng, st, budget=60.0):
     pair = ThreadedPair({"miu": lm[0], "agf": bool(agf[0]), "lto": 2500}, {"miu": lm[1], "agf": bool(agf[1]), "lto": 2500})
     pair.pipe.keep_wire = False
     pair.pipe.observers.append(watch)
-    state = {}                         # thread name -> (op, index) of the call in progress, None between calls
-    accepted = {"A": [], "B": []}
-    rcvd = {"A": [], "B": []}
+    state = {}                         # thread name -> (op, index[, message]) of the call in progress, None between calls
+    nsend = cfg.get("senders", [1, 1])
+    nrecv = cfg.get("receivers", [1, 1])
+    sends = {"A": {}, "B": {}}         # end -> sender thread -> [[message, start stamp, end stamp | None], ...]
+    rcvd = {"A": {}, "B": {}}          # end -> receiver thread -> [message, ...]
+    roles = {"setupS": (None, "setup"), "setupC": (None, "setup")}
+    stamp = itertools.count()
+    quota = {"A": cfg["n"][1], "B": cfg["n"][0]}       # recv() calls still to be started at that end
+    qlock = threading.Lock()
+    gates = {}
+    none_seen = {"n": 0}
     errors = []
     marks = {}
     late = []
@@ -1095,19 +1249,20 @@ def threaded_run(cfg, R, rng, st, budget=60.0):
             sock.setsockopt(L.SO_RCVMIU, cfg["rcv_miu"][i])
         sock.setsockopt(L.SO_RCVBUF, cfg["rw"][i])
 
-    def sender(end):
+    def sender(end, idx, count):
         me = threading.current_thread().name
         if not (cfg["greet"] and end == s) and not connected.wait(40):
             late.append(me)
             return
         sock = socks[end]
         miu = sock.getsockopt(L.SO_SNDMIU)
-        r = random.Random(cfg["seed"] * 7 + ord(end))
-        for k in range(cfg["n"]["AB".index(end)]):
+        r = random.Random(cfg["seed"] * 7 + ord(end) + idx * 131)
+        recs = sends[end][me]
+        for k in range(count):
             if stop.is_set():
                 return
             if r.random() < 0.04:
-                big = make_msg(end, 1000000 + k, miu + r.choice([1, 2, 500]))
+                big = make_msg(end, 1000000 + idx * 100000 + k, miu + r.choice([1, 2, 500]))
                 try:
                     ok = sock.send(big)
                     viol.append(("miu/oversize-accepted", "blocking send(%d bytes) returned %r, MIU %d" % (len(big), ok, miu)))
@@ -1118,42 +1273,61 @@ def threaded_run(cfg, R, rng, st, budget=60.0):
             if r.random() < 0.05:
                 sock.poll("acks", 0)
             n = r.choice([5, 6, 9, 40, miu, miu - 1, r.randrange(5, miu + 1)])
-            msg = make_msg(end, k, n)
-            state[me] = ("send", k)
+            msg = make_msg(end, idx * 100000 + k, n)
+            rec = [msg, next(stamp), None]
+            recs.append(rec)
+            state[me] = ("send", k, msg)
             ok = sock.send(msg)
             state[me] = None
             if ok is True:
-                accepted[end].append(msg)
+                rec[2] = next(stamp)
             else:
                 errors.append((me, RuntimeError("send returned %r" % ok)))
                 return
 
-    def receiver(end):
+    def receiver(end, idx):
         me = threading.current_thread().name
         if end == c and not connected.wait(40):
             late.append(me)
             return
         sock = socks[end]
-        r = random.Random(cfg["seed"] * 11 + ord(end))
+        r = random.Random(cfg["seed"] * 11 + ord(end) + idx * 137)
         busy_left = 0
-        for k in range(cfg["n"]["AB".index(other(end))]):
-            if stop.is_set():
-                return
+        got = rcvd[end][me]
+        while not stop.is_set():
+            with qlock:
+                if quota[end] <= 0:
+                    break
+                quota[end] -= 1
             if cfg["busy"] and busy_left == 0 and r.random() < 0.06 and (cfg["greet"] or connected.is_set()):
                 sock.setsockopt(L.SO_RCVBSY, True)
                 busy_left = r.randrange(1, 6)
             if r.random() < 0.1:
                 sock.poll("recv", 0.001)
-            state[me] = ("recv", k)
+            state[me] = ("recv", len(got))
             m = sock.recv()
             state[me] = None
-            rcvd[end].append(m)
+            if m is None and nrecv["AB".index(end)] > 1 and none_seen["n"] < 100000:
+                # observation, not judged (no message is lost): with several threads in recv() on one socket a woken
+                # receiver may find the queue emptied by another one and gets None although nobody closed
+                none_seen["n"] += 1
+                with qlock:
+                    quota[end] += 1
+            else:
+                got.append(m)
             if busy_left:
                 busy_left -= 1
                 if busy_left == 0:
                     sock.setsockopt(L.SO_RCVBSY, False)
         if busy_left:
             sock.setsockopt(L.SO_RCVBSY, False)
+
+    def install_gate(end, sock):
+        if max(nsend) > 1:
+            # coverage of the contended window wait (and a little more schedule variety at exactly that point)
+            tco = sock._tco
+            gates[end] = tco.send_token = GateCond(tco.send_token, random.Random(cfg["seed"] + ord(end)),
+                                                   cfg.get("p_wake_delay", 0.0))
 
     def server_setup():
         srv = L.Socket(pair.llc_of(s), L.DATA_LINK_CONNECTION)
@@ -1163,7 +1337,9 @@ def threaded_run(cfg, R, rng, st, budget=60.0):
         socks["listen"] = srv
         listening.set()
         state["setupS"] = ("accept", 0)
-        socks[s] = srv.accept()
+        acc = srv.accept()
+        install_gate(s, acc)
+        socks[s] = acc
         state["setupS"] = None
         accepted_ev.set()
 
@@ -1175,6 +1351,7 @@ def threaded_run(cfg, R, rng, st, budget=60.0):
         cli.connect(40)
         marks["connect_returned"] = watch.frame
         state["setupC"] = None
+        install_gate(c, cli)
         socks[c] = cli
         connected.set()
 
@@ -1199,18 +1376,25 @@ def threaded_run(cfg, R, rng, st, budget=60.0):
                 break
             if errors or time.time() - t_acc > 30:
                 raise Inconclusive("accept() did not return within 30 s (errors: %r)" % errors)
-        for end in "AB":
+        for i, end in enumerate("AB"):
             if viol:
                 break
-            threads.append(threading.Thread(target=guarded(sender), args=(end,), name="send" + end, daemon=True))
-            threads.append(threading.Thread(target=guarded(receiver), args=(end,), name="recv" + end, daemon=True))
+            for j in range(nsend[i]):
+                name = "send%s%s" % (end, j if nsend[i] > 1 else "")
+                count = cfg["n"][i] // nsend[i] + (j < cfg["n"][i] % nsend[i])
+                sends[end][name], roles[name] = [], (end, "send")
+                threads.append(threading.Thread(target=guarded(sender), args=(end, j, count), name=name, daemon=True))
+            for j in range(nrecv[i]):
+                name = "recv%s%s" % (end, j if nrecv[i] > 1 else "")
+                rcvd[end][name], roles[name] = [], (end, "recv")
+                threads.append(threading.Thread(target=guarded(receiver), args=(end, j), name=name, daemon=True))
         for t in threads:
             t.start()
         # monitor: structural stall detection, wall-clock only decides "inconclusive"
         suspect = {}
         while any(t.is_alive() for t in threads):
             time.sleep(0.02)
-            stall = detect_stall(threads + [tc], state, watch, suspect)
+            stall = detect_stall(threads + [tc], state, watch, suspect, roles=roles, rcvd=rcvd)
             if stall:
                 viol.append(stall)
                 break
@@ -1258,20 +1442,27 @@ def threaded_run(cfg, R, rng, st, budget=60.0):
         viol.append(("wire/undecodable", "%d frames rejected by the reference decoder" % watch.undecodable))
     stalled = any(v[0].startswith("stall/") for v in viol)
     for x in "AB":
-        acc, got = accepted[x], rcvd[other(x)]
-        st.inc("threaded_messages_delivered", len(got))
-        st.inc("recv_compared", len(got))
-        if got != acc[:len(got)] or (len(got) != len(acc) and not stalled and not errors):
-            k = next((i for i, (p, q) in enumerate(zip(got, acc)) if p != q), min(len(got), len(acc)))
-            kind = ("duplicate" if k < len(got) and got[k] in got[:k] else
-                    "lost-or-reordered" if k < len(got) else "lost-at-quiescence")
-            viol.append(("deliver/" + kind, "%s>%s: accepted %d, delivered %d, first difference at #%d" % (
-                x, other(x), len(acc), len(got), k)))
-        elif not stalled and not errors:
+        got = sum(len(v) for v in rcvd[other(x)].values())
+        st.inc("threaded_messages_delivered", got)
+        st.inc("recv_compared", got)
+        complete = not stalled and not errors
+        bad = judge_delivery("%s>%s" % (x, other(x)), sends[x], rcvd[other(x)], complete)
+        if bad:
+            viol.append(("deliver/" + bad[0], bad[1]))
+        elif complete:
             st.inc("quiescence_equal_checked")
         refused_on_wire = [d for d in watch.i_data[x] if len(d) >= 5 and d[1:5] >= (1000000).to_bytes(4, "big")]
         if refused_on_wire:
             viol.append(("miu/refused-message-transmitted", "%d oversize messages on the wire" % len(refused_on_wire)))
+    st.inc("recv_none_on_open_connection", none_seen["n"])
+    for g in gates.values():
+        st.inc("woken_window_full_again", g.rewaits)
+        st.inc("threaded_rewaits", g.rewaits)
+        st.inc("window_wait_wakeups", g.wakeups)
+        st.inc("wake_delays_injected", g.delays)
+        st.inc("gate_unavailable", g.unavailable)
+    st.mx("max_sender_threads", max(nsend))
+    st.mx("max_receiver_threads", max(nrecv))
     st.inc("emsgsize_checked", over["checked"])
     first_i = watch.i_frame[s][0] if watch.i_frame[s] else None
     if (viol and first_i is not None and "CC" in watch.first_seq and not viol[0][0].startswith("window/pdu-before-cc")
@@ -1281,45 +1472,82 @@ def threaded_run(cfg, R, rng, st, budget=60.0):
         viol = [(sig if sig.endswith("-returned") else sig + "/i-after-cc-before-connect-returned", what) for sig, what in viol]
     if result == "done" and not viol:
         st.inc("threaded_runs_completed")
+        st.inc("multi_sender_runs_completed", int(max(nsend) > 1))
+        st.inc("multi_receiver_runs_completed", int(max(nrecv) > 1))
     return viol
 
 
-def detect_stall(threads, state, watch, suspect, settle=40):
+def detect_stall(threads, state, watch, suspect, settle=40, roles=None, rcvd=None):
     """lost wake-up: thread in an untimed wait, still registered as waiter (nobody notified it), while the wire log
-    shows - at least `settle` frames ago - that what it waits for has happened. Checked twice in a row."""
+    shows - at least `settle` frames ago - that what it waits for has happened. Checked twice in a row.
+    With several sender (receiver) threads on one socket a free window slot (a queued message) may be meant for
+    another thread that is about to take it: then only the situation in which EVERY live sender (receiver) thread
+    of that end is a registered waiter and the wire shows nothing outstanding (more messages than all of them
+    received) counts - nothing but a notification could end it."""
     m = watch.model
+    roles = roles or {}
+    infos = {}
+
+    def info_of(t):
+        if t.name not in infos:
+            infos[t.name] = wait_info(t) if t.is_alive() and state.get(t.name) is not None else None
+        return infos[t.name]
+
+    def team(end, kind):
+        return [t for t in threads if roles.get(t.name) == (end, kind)]
+
+    def all_wait(members, suffix):
+        for t in members:
+            if not t.is_alive():
+                continue
+            i = info_of(t)
+            if i is None or not i[1] or i[2] is not True or not i[0].endswith(suffix):
+                return False
+        return True
+
     for t in threads:
         cur = state.get(t.name)
         if cur is None or not t.is_alive():
             suspect.pop(t.name, None)
             continue
-        info = wait_info(t)
+        info = info_of(t)
         if info is None or not info[1] or info[2] is not True:
             suspect.pop(t.name, None)
             continue
         qual = info[0]
-        end = t.name[-1]
-        op, k = cur
+        end = roles.get(t.name, (t.name[-1],))[0]
+        op, k = cur[0], cur[1]
         happened = None
         if op == "send" and qual.endswith("TransmissionControlObject.send"):
             # waits for its I PDU to be taken from the send queue; it is on the wire already
-            if len(watch.i_frame[end]) > k:
+            if len(cur) > 2:
+                happened = watch.frame_of.get(cur[2])
+            elif len(watch.i_frame[end]) > k:
                 happened = watch.i_frame[end][k]
         elif op == "send" and qual.endswith("DataLinkConnection.send"):
             # waits for the send window to open; the wire shows acknowledgements that opened it
-            if m.established and m.sent[end] == k and m.outstanding(end) < m.rw.get(other(end), 0):
+            mates = team(end, "send")
+            if len(mates) <= 1:
+                is_open = m.established and m.sent[end] == k and m.outstanding(end) < m.rw.get(other(end), 0)
+            else:
+                is_open = (m.established and m.rw.get(other(end), 0) > 0 and m.outstanding(end) == 0
+                           and all_wait(mates, "DataLinkConnection.send"))
+            if is_open:
                 happened = max(watch.ack_frame[end], watch.i_frame[end][-1] if watch.i_frame[end] else 0)
         elif op == "accept" and qual.endswith("TransmissionControlObject.recv"):
             happened = watch.first.get("CONNECT")
         elif op == "connect" and qual.endswith("TransmissionControlObject.recv"):
             happened = watch.first.get("CC")
         elif op == "recv" and qual.endswith("TransmissionControlObject.recv"):
+            mates = team(end, "recv")
+            if len(mates) > 1:
+                k = sum(len(v) for v in rcvd[end].values()) if all_wait(mates, "TransmissionControlObject.recv") else 1 << 60
             if m.established and len(watch.i_frame[other(end)]) > k:
                 happened = watch.i_frame[other(end)][k]
         if happened is None or watch.frame - happened < settle:
             suspect.pop(t.name, None)
             continue
-        key = (cur, qual, happened)
+        key = (cur[:2], qual, happened)
         if suspect.get(t.name) == key:
             return ("stall/blocked-after-event/%s/%s" % (op, ".".join(qual.split(".")[-2:])),
                     "%s sits in an untimed wait inside %s as a registered waiter (not notified, or woken and waiting "
@@ -1329,9 +1557,380 @@ def detect_stall(threads, state, watch, suspect, settle=40):
     return None
 
 
-def random_thread_cfg(rng, desc, greet):
+# ---------------------------------------------------------------------------------------------------------------
+#  forced schedules: several application threads on one socket, the contended wake-up window made deterministic
+# ---------------------------------------------------------------------------------------------------------------
+def random_gated_cfg(rng):
+    rw = rng.choice([1, 1, 2, 3])
+    freed = rng.randrange(1, rw + 1)
+    kind = "recv" if rng.random() < 0.2 else "send"
+    return {"kind": kind, "rw": rw, "rw_back": rng.choice([1, 2, 15]), "end": rng.choice("AB"), "client": rng.choice("AB"),
+            "agf": [int(rng.random() < 0.5), int(rng.random() < 0.5)],
+            "pre": rng.choice([0, 0, 1, 2, 5, 13, 14, 15, 16, 17, 31]),    # messages delivered before (moves N(S), wrap)
+            "waiters": rng.randrange(1, 4),          # threads parked in the blocking call
+            "per_waiter": rng.choice([1, 1, 2]),     # messages each of them sends
+            "freed": freed,                          # window slots the acknowledgement(s) free
+            "ack_pdus": rng.randrange(1, freed + 1),  # ... carried by that many separate RR PDUs (one wake-up each)
+            "thieves": rng.choice([freed, freed, max(0, freed - 1)]),   # fresh send() calls that get in first
+            "thief_mode": rng.choice(["thread", "thread", "dontwait"]),
+            "tx_first": int(rng.random() < 0.5),     # the late comers' I PDUs are transmitted before the woken thread runs
+            "lazy_recv": int(rng.random() < 0.6),    # afterwards the receiver calls recv() only when the link went quiet
+            "msgs": rng.randrange(1, 4)}             # (recv) messages that arrive while the receivers are parked
+
+
+class Gated:
+    """One deterministic scenario on a lock-step pair (the harness turns the link; application threads block for real).
+    send: the window the peer announced (RW 1..3) is full, `waiters` threads sit in blocking send() calls; the
+    acknowledgement arrives and wakes one of them per RR; the woken threads are kept from re-acquiring the connection's
+    lock (GateCond) while `thieves` further send() calls run and legitimately take the free slots; then the woken
+    threads go on.  recv: the same for two threads in recv() and a message that a third recv() call takes first."""
+
+    def __init__(self, cfg, st):
+        from vf.sim.llcpair import LockstepPair, lockstep_connect
+        import nfc.llcp
+        self.L, self.cfg, self.st = nfc.llcp, cfg, st
+        agf = cfg["agf"]
+        self.lp = LockstepPair({"miu": 248, "agf": bool(agf[0])}, {"miu": 248, "agf": bool(agf[1])})
+        self.lp.keep_wire = False
+        if not (self.lp.ok_a and self.lp.ok_b):
+            raise Inconclusive("LLC activation failed")
+        self.watch = WireWatch(st)
+        self.lp.observers.append(self.watch)
+        x = self.x = cfg["end"]
+        rws = {x: cfg["rw_back"], other(x): cfg["rw"]}
+        c = cfg["client"]
+        try:
+            cli, acc, srv = lockstep_connect(self.lp, c, 40, {"rw": rws[c]}, {"rw": rws[other(c)]})
+        except RuntimeError as e:
+            raise Inconclusive("connection set-up: %s" % e)
+        self.S, self.R = (cli, acc) if c == x else (acc, cli)
+        self.viol = []
+        self.threads = {}
+        self.errors = []
+        self.stamp = itertools.count()
+        self.sends, self.rcvd = {}, {"main": []}
+        self.ctr = 0
+        self.moved = 0
+        self.stop = False
+
+    # -- workers ------------------------------------------------------------------------------------------
+    def msg(self):
+        self.ctr += 1
+        return make_msg(self.x, self.ctr, 9)
+
+    def spawn_sender(self, name, msgs, flags=0):
+        recs = self.sends.setdefault(name, [])
+
+        def run():
+            try:
+                for m in msgs:
+                    rec = [m, next(self.stamp), None]
+                    recs.append(rec)
+                    ok = self.S.send(m, flags)
+                    if ok is not True:
+                        self.errors.append((name, RuntimeError("send returned %r" % ok)))
+                        return
+                    rec[2] = next(self.stamp)
+            except BaseException as e:
+                self.errors.append((name, e))
+        t = self.threads[name] = threading.Thread(target=run, name=name, daemon=True)
+        t.start()
+        return t
+
+    def spawn_receiver(self, name, count, nones):
+        got = self.rcvd.setdefault(name, [])
+
+        def run():
+            try:
+                while len(got) < count and not self.stop:
+                    m = self.R.recv()
+                    if m is None:
+                        nones.append(name)
+                        if len(nones) > 50:
+                            return
+                    else:
+                        got.append(m)
+            except BaseException as e:
+                self.errors.append((name, e))
+        t = self.threads[name] = threading.Thread(target=run, name=name, daemon=True)
+        t.start()
+        return t
+
+    def settle(self, gate=None):
+        """until every live worker sits in a Condition wait (or is parked by the gate)"""
+        t0 = time.time()
+        for t in self.threads.values():
+            while t.is_alive():
+                if gate is not None and (t.ident in gate.parked):
+                    break
+                info = wait_info(t)
+                if info is not None and info[2] is True:       # registered waiter: not notified (a notified thread
+                    break                                      # is still inside wait() but about to run)
+                if time.time() - t0 > GATE_GUARD:
+                    raise Inconclusive("gated scenario: %s neither blocked nor finished" % t.name)
+                time.sleep(0)
+
+    def pump(self):
+        for e in "AB":
+            f = self.watch.frame
+            try:
+                self.lp.turn(e)
+            except Exception as ex:
+                self.viol.append(("escape/turn/%s" % exc_sig(ex), "link turn of %s raised %r" % (e, ex)))
+                raise StopIteration
+            self.moved += self.watch.frame - f
+            if self.watch.bad:
+                raise StopIteration
+
+    def recv_main(self, n):
+        k = 0
+        while k < n and self.R.poll("recv", 0):
+            self.rcvd["main"].append(self.R.recv())
+            k += 1
+        self.moved += k
+        return k
+
+    def live(self):
+        return [t for t in self.threads.values() if t.is_alive()]
+
+    # -- scenarios ----------------------------------------------------------------------------------------
+    def run(self):
+        try:
+            if self.cfg["kind"] == "recv":
+                self.run_recv()
+            else:
+                self.run_send()
+        except StopIteration:
+            pass
+        finally:
+            for g in self.gates:
+                g.hold = False
+                g.go.set()
+        return self.verdicts()
+
+    gates = ()
+
+    def run_send(self):
+        cfg, st, m, x = self.cfg, self.st, self.watch.model, self.x
+        rw = cfg["rw"]
+        tco = self.S._tco
+        gate = tco.send_token = GateCond(tco.send_token)
+        self.gates = [gate]
+        # 1. earlier traffic, then the window is filled and stays unacknowledged (the receiver does not call recv())
+        self.spawn_sender("fill", [self.msg() for _ in range(cfg["pre"] + rw)])
+        for _ in range(4 * (cfg["pre"] + rw) + 8):
+            self.settle()
+            if not self.threads["fill"].is_alive():
+                break
+            self.pump()
+            self.recv_main(cfg["pre"] - len(self.rcvd["main"]))
+        self.pump()
+        if self.threads["fill"].is_alive() or m.outstanding(x) != rw:
+            st.inc("gated_window_not_filled")
+            return self.drain()
+        # 2. blocking senders queue up on the full window
+        for i in range(cfg["waiters"]):
+            self.spawn_sender("wait%d" % i, [self.msg() for _ in range(cfg["per_waiter"])])
+            self.settle()                # one after the other: the order in which they wait is part of the case
+        if len(gate.waiting) != cfg["waiters"]:
+            st.inc("gated_waiters_not_parked")
+            return self.drain()
+        # 3. acknowledgements free `freed` slots; every RR wakes one waiter, which is held before it re-acquires the lock
+        gate.hold = True
+        per = [cfg["freed"] // cfg["ack_pdus"] + (i < cfg["freed"] % cfg["ack_pdus"]) for i in range(cfg["ack_pdus"])]
+        for n in per:
+            self.recv_main(n)
+            acked = m.acked[x]
+            for _ in range(3):
+                self.pump()
+                if m.acked[x] >= acked + n:
+                    break
+        woken = min(cfg["ack_pdus"], cfg["waiters"])
+        t0 = time.time()
+        while len(gate.parked) < woken and time.time() - t0 < GATE_GUARD:
+            time.sleep(0)
+        if len(gate.parked) < woken or m.outstanding(x) != rw - cfg["freed"]:
+            st.inc("gated_wakeup_not_held")
+            gate.hold = False
+            gate.go.set()
+            return self.drain()
+        # 4. other send() calls get in first
+        taken = 0
+        for i in range(cfg["thieves"]):
+            if cfg["thief_mode"] == "dontwait":
+                msg = self.msg()
+                rec = [msg, next(self.stamp), None]
+                self.sends.setdefault("late%d" % i, []).append(rec)
+                try:
+                    ok = self.S.send(msg, self.L.MSG_DONTWAIT)
+                except Exception as e:
+                    self.errors.append(("late%d" % i, e))
+                    break
+                if ok is True:
+                    rec[2] = next(self.stamp)
+                    taken += 1
+            else:
+                t = self.spawn_sender("late%d" % i, [self.msg()])
+                self.settle(gate)
+                i_ = wait_info(t) if t.is_alive() else None
+                taken += int(not t.is_alive() or (i_ is not None and i_[0].endswith("TransmissionControlObject.send")))
+        if cfg["tx_first"]:
+            self.pump()
+            self.settle(gate)
+        if taken:
+            st.inc("gate_window_forced")
+        st.inc("gate_window_forced_critical", int(taken and cfg["freed"] - taken < woken))
+        rewaits = gate.rewaits
+        # 5. the woken threads run
+        gate.hold = False
+        gate.go.set()
+        t0 = time.time()
+        while gate.parked and time.time() - t0 < GATE_GUARD:
+            time.sleep(0)
+        self.settle()
+        st.inc("woken_window_full_again", gate.rewaits - rewaits)
+        st.inc("gated_rewaits", gate.rewaits - rewaits)
+        self.drain()
+
+    def run_recv(self):
+        cfg, st, x = self.cfg, self.st, self.x
+        tco = self.R._tco
+        gate = tco.recv_ready = GateCond(tco.recv_ready)
+        self.gates = [gate]
+        total = cfg["pre"] % 4 + cfg["msgs"] + 2
+        nones = self.nones = []
+        # two threads wait in recv(); a message arrives and wakes one, which is held; a third recv() call takes it
+        self.spawn_receiver("rcv0", 1 << 30, nones)
+        self.settle()
+        self.spawn_receiver("rcv1", 1 << 30, nones)
+        self.settle()
+        if len(gate.waiting) != 2:
+            st.inc("gated_waiters_not_parked")
+            return
+        gate.hold = True
+        n = min(cfg["msgs"], cfg["rw"])
+        self.spawn_sender("snd", [self.msg() for _ in range(total)])
+        for _ in range(3 * n + 3):
+            self.settle(gate)
+            self.pump()
+            if len(self.watch.i_frame[x]) >= n:
+                break
+        self.pump()
+        t0 = time.time()
+        while len(gate.parked) < min(n, 2) and time.time() - t0 < GATE_GUARD:
+            time.sleep(0)
+        if len(gate.parked) < min(n, 2):
+            st.inc("gated_wakeup_not_held")
+        else:
+            took = self.recv_main(n)
+            st.inc("gate_recv_window_forced", int(took > 0))
+        gate.hold = False
+        gate.go.set()
+        # quiescence: everything the sender was given arrives at one of the three receivers
+        idle = 0
+        for _ in range(6 * total + 20):
+            self.settle()
+            self.moved = 0
+            self.pump()
+            got = sum(len(v) for v in self.rcvd.values())
+            if got >= total and not self.threads["snd"].is_alive():
+                break
+            idle = 0 if self.moved else idle + 1
+            if idle >= 4:
+                break
+        # let the receiver threads end: each further message is taken by one of them, which then sees the flag
+        self.stop = True
+        for i in range(8):
+            if self.threads["snd"].is_alive() or not [t for t in self.live() if t.name.startswith("rcv")] or self.errors:
+                break
+            msg = self.msg()
+            rec = [msg, next(self.stamp), None]
+            try:
+                if self.S.send(msg, self.L.MSG_DONTWAIT) is True:
+                    rec[2] = next(self.stamp)
+                    self.sends.setdefault("fin", []).append(rec)
+            except self.L.Error:
+                pass
+            for _ in range(3):
+                self.settle()
+                self.pump()
+        st.inc("recv_none_on_open_connection", len(nones))
+
+    def drain(self):
+        """the receiver takes everything, the link turns until all senders returned; a round without any PDU and any
+        recv() leaves the state unchanged (single driving thread, workers all blocked)"""
+        idle = 0
+        lazy = self.cfg.get("lazy_recv")
+        for _ in range(400):
+            self.settle()
+            self.moved = 0
+            self.pump()
+            if not (lazy and self.moved):
+                self.recv_main(1 << 30)
+            if not self.live():
+                if self.moved == 0:
+                    return
+                continue
+            idle = 0 if self.moved else idle + 1
+            if idle >= 3:
+                break
+        m, x = self.watch.model, self.x
+        for t in self.live():
+            info = wait_info(t)
+            if info and info[1] and info[2] is True:
+                self.viol.append(("stall/blocked-at-quiescence/send/%s" % ".".join(info[0].split(".")[-2:]),
+                                  "%s sits in an untimed wait inside %s as a registered waiter although the link is "
+                                  "quiescent, the receiver has taken every message and the wire shows %d of RW=%d I PDUs "
+                                  "outstanding" % (t.name, info[0], m.outstanding(x), m.rw.get(other(x), -1))))
+                return
+        if self.live():
+            raise Inconclusive("gated scenario: senders neither returned nor provably stalled")
+
+    def verdicts(self):
+        L, x = self.L, self.x
+        viol = [("window/" + clause, text) for clause, text in self.watch.bad] + self.viol
+        for name, e in self.errors:
+            if isinstance(e, L.Error):
+                viol.append(("api/gated-%s/unexpected-%s" % (name[:4], errname(e)), "%s raised %r on an open connection" % (name, e)))
+            else:
+                viol.append(("escape/gated-%s/%s" % (name[:4], exc_sig(e)), "%s raised %r" % (name, e)))
+        if self.watch.undecodable:
+            viol.append(("wire/undecodable", "%d frames rejected by the reference decoder" % self.watch.undecodable))
+        complete = not viol and not [t for t in self.live() if t.name.startswith(("fill", "wait", "late", "snd"))]
+        got = sum(len(v) for v in self.rcvd.values())
+        self.st.inc("recv_compared", got)
+        self.st.inc("gated_messages_delivered", got)
+        bad = judge_delivery("%s>%s" % (x, other(x)), self.sends, self.rcvd, complete)
+        if bad:
+            viol.append(("deliver/" + bad[0], bad[1]))
+        elif complete:
+            self.st.inc("quiescence_equal_checked")
+            self.st.inc("gated_scenarios_completed")
+        return viol
+
+
+def gated_run(cfg, st):
+    g = Gated(cfg, st)
+    st.inc("gated_scenarios")
+    st.inc("gated_scenarios_" + cfg["kind"])
+    return g.run()
+
+
+def random_thread_cfg(rng, desc, greet, multi=False):
     lm = [rng.choice([128, 248, 1000, 2175]) for _ in "AB"]
     n_lo, n_hi = desc["n_lo"], desc["n_hi"]
+    if multi:
+        # several application threads share the socket of an end: 2-4 blocking senders queue up on a small window the
+        # peer announced (RW 1..3), 1-2 blocking receivers
+        ns = [rng.choice([2, 3, 4]), rng.choice([1, 2, 3])]
+        rng.shuffle(ns)
+        cfg = random_thread_cfg(rng, desc, greet)
+        cfg.update(senders=ns, receivers=[rng.choice([1, 1, 2]) for _ in "AB"],
+                   p_wake_delay=rng.choice([0.0, 0.3, 0.6]))
+        for i in (0, 1):
+            if ns[1 - i] > 1:
+                cfg["rw"][i] = rng.choice([1, 1, 2, 3])
+        return cfg
     return {"rw": [rng.choice([1, 1, 2, 3, 7, 15, rng.randrange(1, 16)]) for _ in "AB"],
             "agf": [int(rng.random() < 0.6), int(rng.random() < 0.6)], "link_miu": lm,
             "rcv_miu": [rng.choice([None, 128, 200, lm[i]]) for i in (0, 1)],
@@ -1346,13 +1945,28 @@ def run_threaded(desc, R, rng):
     contracts.install_pdu_length_contract()
     c0 = contracts.COUNTS.get("pdu_len_contract", 0)
     st = Stats()
+    for i in range(desc.get("gated", 0)):
+        cfg = random_gated_cfg(rng)
+        key = ("gated", json.dumps(cfg, sort_keys=True))
+        try:
+            viol = gated_run(cfg, st)
+        except Inconclusive as e:
+            R.inconc(str(e))
+            R.case(key, nontrivial=False)
+            continue
+        R.case(key)
+        if i == 0:
+            R.sample({"gated_cfg": cfg})
+        for sig, what in viol[:1]:
+            R.violation(sig, what, {"kind": "gated", "cfg": cfg})
     t0 = time.time()
     for i in range(desc["runs"]):
         if time.time() - t0 > desc["budget"]:
             st.inc("threaded_runs_skipped_budget")      # coverage only, never a verdict
             continue
-        cfg = random_thread_cfg(rng, desc, greet=(i % 6 == desc.get("greet_run", -1)))
+        cfg = random_thread_cfg(rng, desc, greet=(i % 6 == desc.get("greet_run", -1)), multi=(i % 6 in desc.get("multi_runs", ())))
         st.inc("threaded_runs")
+        st.inc("multi_sender_runs", int("senders" in cfg))
         try:
             viol = threaded_run(cfg, R, rng, st)
         except Inconclusive as e:
@@ -1395,6 +2009,19 @@ def replay(case, R):
             R.count(k, v)
         return
     cfg = dict(case["cfg"])
+    if case.get("kind") == "gated":
+        st = Stats()
+        try:
+            viol = gated_run(cfg, st)
+        except Inconclusive as e:
+            R.inconc(str(e))
+            return
+        R.case("replay")
+        for k, v in st.items():
+            R.count(k, v)
+        if viol:
+            R.violation(viol[0][0], viol[0][1], case)
+        return
     for attempt in range(5):            # thread schedules are not reproducible: a few attempts with the same set-up
         st = Stats()
         try:
